@@ -70,7 +70,7 @@ Proof. exact @slice_full. Qed.
 Print Assumptions C10_slice_full.
 
 From Coq Require Import String.
-From Verif Require Import Base.PyValue Model.PyMini Gen.SrcCursor Proofs.SrcCursor.
+From Verif Require Import Base.PyValue Model.PyMini Model.PrimsApi Gen.SrcCursor Proofs.SrcCursor.
 Open Scope list_scope.
 
 (* ---- Tie by translation (re-checked on every run against the CURRENT source of beanquery/cursor.py).
@@ -115,6 +115,92 @@ Example C10_source_example :
   = Ok ([("_rows", PList [PInt 30]); ("_pos", PInt 3); ("_rowcount", PInt 4); ("arraysize", PInt 1)]%string,
         PList [PInt 10; PInt 20]).
 Proof. reflexivity. Qed.
+
+(* ---- The state-changing half of the API, from the CURRENT source (Gen/SrcCursor.v: cursor_init, cursor_execute,
+   cursor_connection, column_len, column_getitem).  [obj ctx d c] is the attribute dictionary of a Cursor object (connection,
+   description, then the model state c); [pipeline] is the composition of the three opaque stages the source calls
+   (parser.parse unless the query is an ast.Node, compiler.compile(self._context, query, params),
+   query_execute.execute_query), found in the generated [refs] table by their qualified names. *)
+Theorem C10_source_init : forall (call_ref : nat -> list pv -> pv) (prim : string -> list pv -> PyMini.res pv) (conn : pv),
+  call_method call_ref prim cursor_init [] [conn] = Ok (obj conn PNone (@init pv), PNone).
+Proof. exact init_src. Qed.
+Print Assumptions C10_source_init.
+
+(* for EVERY prior state: the attributes after execute are those of the model's step (Execute R) - rows R,
+   rowcount = len R, position 0, arraysize and connection untouched - and the new description *)
+Theorem C10_source_execute : forall (call_ref : nat -> list pv -> pv) (prim : string -> list pv -> PyMini.res pv)
+    (K : exec_refs) (ctx d0 : pv) (c : cur pv) (q p d : pv) (R : list pv),
+  exec_refs_ok K ->
+  pipeline call_ref K ctx q p = Ok (PTuple [d; PList R]) ->
+  call_method call_ref prim cursor_execute (obj ctx d0 c) [q; p] =
+  Ok (obj ctx d (fst (step pv c (Execute R))), PSelf).
+Proof. exact execute_src. Qed.
+Print Assumptions C10_source_execute.
+
+Theorem C10_source_execute_raises : forall (call_ref : nat -> list pv -> pv) (prim : string -> list pv -> PyMini.res pv)
+    (K : exec_refs) (ctx d0 : pv) (c : cur pv) (q p : pv) (k : Z),
+  exec_refs_ok K ->
+  pipeline call_ref K ctx q p = Exc k ->
+  call_method call_ref prim cursor_execute (obj ctx d0 c) [q; p] = Exc k.
+Proof. exact execute_raises_src. Qed.
+Print Assumptions C10_source_execute_raises.
+
+(* the fetch methods on the full object: connection and description are not touched *)
+Theorem C10_source_fetch_full_object : forall (call_ref : nat -> list pv -> pv) (prim : string -> list pv -> PyMini.res pv)
+    (ctx d : pv) (c : cur pv),
+  call_method call_ref prim cursor_fetchone (obj ctx d c) [] =
+    Ok (obj ctx d (fst (fetchone pv c)), res_pv (snd (fetchone pv c))) /\
+  (forall size, call_method call_ref prim cursor_fetchmany (obj ctx d c) [match size with None => PNone | Some n => PInt n end] =
+    Ok (obj ctx d (fst (fetchmany pv c size)), res_pv (snd (fetchmany pv c size)))) /\
+  call_method call_ref prim cursor_fetchall (obj ctx d c) [] =
+    Ok (obj ctx d (fst (fetchall pv c)), res_pv (snd (fetchall pv c))) /\
+  call_method call_ref prim cursor_description (obj ctx d c) [] = Ok (obj ctx d c, d) /\
+  call_method call_ref prim cursor_connection (obj ctx d c) [] = Ok (obj ctx d c, ctx).
+Proof.
+  exact (fun cr pr ctx d c => conj (fetchone_obj cr pr ctx d c) (conj (fetchmany_obj cr pr ctx d c)
+           (conj (fetchall_obj cr pr ctx d c) (conj (description_src cr pr ctx d c) (connection_src cr pr ctx d c))))).
+Qed.
+Print Assumptions C10_source_fetch_full_object.
+
+Theorem C10_source_column_len : forall (call_ref : nat -> list pv -> pv) (prim : string -> list pv -> PyMini.res pv) (flds : env),
+  call_method call_ref prim column_len flds [] = Ok (flds, PInt (Z.of_nat (List.length col_items))).
+Proof. exact column_len_src. Qed.
+Print Assumptions C10_source_column_len.
+
+(* column[i], integer i: the model's py_index over col_items; the getters in Column._vars are what
+   operator.attrgetter means (getters_ok: calling the j-th getter is calling the j-th translated property) *)
+Theorem C10_source_column_getitem : forall (call_ref : nat -> list pv -> pv) (prim : string -> list pv -> PyMini.res pv)
+    (kI kS kH : nat) (n t : pv) (ks : list nat) (i : Z),
+  ref_of refs "builtins.isinstance" = Some kI -> ref_of refs "builtins.slice" = Some kS ->
+  ref_of refs "builtins.hash" = Some kH ->
+  call_ref kI [PInt i; PRef kS] = PBool false ->
+  getters_ok call_ref prim (cflds n t ks) ks ->
+  call_method call_ref prim column_getitem (cflds n t ks) [PInt i] =
+  match py_index col_items i with
+  | None => Exc IndexError
+  | Some IName => Ok (cflds n t ks, n)
+  | Some ICode => bind (do_call call_ref (PRef kH) [t]) (fun h => Ok (cflds n t ks, h))
+  | Some INull => Ok (cflds n t ks, PNone)
+  end.
+Proof. exact column_getitem_src. Qed.
+Print Assumptions C10_source_column_getitem.
+
+(* Non-vacuity of the execute tie: the numbers of the generated refs table, and a pipeline that answers. *)
+Example C10_source_execute_example :
+  let K := {| kNode := 0; kIsinstance := 1; kParse := 2; kCompile := 3; kExec := 4 |} in
+  let call_ref := fun (k : nat) (args : list pv) =>
+    match k with
+    | 1%nat => PBool false | 2%nat => PInt 100 | 3%nat => PInt 200
+    | 4%nat => PTuple [PInt 7; PList [PInt 10; PInt 20]] | _ => PNone
+    end in
+  exec_refs_ok K /\
+  pipeline call_ref K PNone PNone PNone = Ok (PTuple [PInt 7; PList [PInt 10; PInt 20]]) /\
+  call_method call_ref (fun _ _ => Stuck) cursor_execute
+    [("_context", PNone); ("_description", PNone); ("_rows", PList [PInt 1]); ("_rowcount", PInt 5); ("_pos", PInt 4);
+     ("arraysize", PInt 3)]%string [PNone; PNone]
+  = Ok ([("_context", PNone); ("_description", PInt 7); ("_rows", PList [PInt 10; PInt 20]); ("_rowcount", PInt 2);
+         ("_pos", PInt 0); ("arraysize", PInt 3)]%string, PSelf).
+Proof. repeat split; reflexivity. Qed.
 
 (* Non-vacuity: a concrete history meeting the hypotheses, with its outputs. *)
 Example C10_example :
